@@ -6,6 +6,8 @@ import random
 
 import gens
 import gens_staking
+import gens_markets
+import gens_more
 import vlib
 
 # model-checking configuration per family and tier: (module, cfg)
@@ -94,6 +96,7 @@ def durability(tier, seed):
     scs = sample(rnd, tlc_durability("gen/MCDurabilityGen_C09.cfg", "durability"), {"quick": 150, "thorough": 0}[tier])
     hist = gens.durability_histories(rnd, {"quick": 12, "thorough": 150}[tier])
     scs += gens.with_restarts(rnd, hist, {"quick": 2, "thorough": 4}[tier])
+    scs += gens_more.absence_wrap(rnd, {"quick": 8, "thorough": 80}[tier])
     return scs + regress("durability")
 
 
@@ -132,5 +135,11 @@ def staking(tier, seed):
 
 
 MC["staking"] = {"quick": ("MCLedger", "mc/MCLedger_q.cfg"), "thorough": ("MCLedger", "mc/MCLedger_q.cfg")}
-BUILDERS = {"staking": staking, "ledger": ledger, "durability": durability, "crash": lambda tier, seed: crash(tier, seed) + crash_enumeration(tier, seed)}
+def markets(tier, seed):
+    rnd = random.Random("%d/markets" % seed)
+    return gens_markets.markets(rnd, {"quick": 80, "thorough": 3000}[tier]) + regress("markets")
+
+
+MC["markets"] = {"quick": ("MCLedger", "mc/MCLedger_q.cfg"), "thorough": ("MCLedger", "mc/MCLedger_q.cfg")}
+BUILDERS = {"markets": markets, "staking": staking, "ledger": ledger, "durability": durability, "crash": lambda tier, seed: crash(tier, seed) + crash_enumeration(tier, seed)}
 RANDOMISED = True
